@@ -191,11 +191,14 @@ def rule_c(repo, chk):
         chk.ob('C08.c', key_ok, g, '%s keys the outer cache on the parso cache node itself' % q)
     init = repo.find('jedi.inference.filters', '_AbstractUsedNamesFilter.__init__')
     sts = attr_stores(init, '_parso_cache_node')
+    none_for_pathless = [s_ for s_ in sts if isinstance(s_.value, ast.Constant) and s_.value.value is None
+                         and gate(init, s_, lambda e, pol: none_accept('path')(e, not pol)) is None]
+    chk.ob('C08.c', bool(none_for_pathless), init, 'buffers without a path get no cache node')
     chk.floor('C08.c', len(sts), 2, '(assignments of _parso_cache_node)')
     for s in sts:
         if isinstance(s.value, ast.Constant) and s.value.value is None:
-            w = gate(init, s, lambda e, pol: none_accept('path')(e, not pol))
-            chk.ob('C08.c', w is None, s, 'buffers without a path get no cache node', w or '')
+            # giving the cache node up is always safe (no memoisation); what matters is that a node is only KEPT for a real path
+            chk.ob('C08.c', True, s, 'no cache node is kept on this path (always safe)')
         else:
             w = gate(init, s, none_accept('path'))
             ok = isinstance(s.value, ast.Call) and call_name(s.value) == 'get_parso_cache_node'
@@ -301,6 +304,31 @@ def rule_e(repo, chk):
     chk.ob('C08.e', ok, pg, 'parse_and_get_code forwards its keyword arguments to the grammar\'s parse')
 
 
+def rule_f(repo, chk):
+    chk.clause('C08.f', 'per-tree memo keyed by path: the parso cache item consulted by the name filters (definition names are memoised on it) is '
+                        'used only if it exists and holds THE tree being analysed (identity test on .node): with settings.fast_parser off, or '
+                        'after the file was imported from disk before the buffer was opened, the item for that path is absent or belongs '
+                        'to another tree')
+    from ..lib import enclosing_handlers, handler_types
+    n = 0
+    for m in sorted(repo.modules.values(), key=lambda m: m.name):
+        for q, f in sorted(m.defs.items()):
+            if not isinstance(f, FUNC_TYPES):
+                continue
+            for c in calls_in(f, 'get_parso_cache_node'):
+                st = repo.enclosing_stmt(c)
+                if not (isinstance(st, ast.Assign) and isinstance(st.targets[0], ast.Attribute)):
+                    continue        # a plain read of .lines (code_lines of a module that was just parsed through the cache)
+                n += 1
+                hs = [h for t in enclosing_handlers(st, f) for h in t.handlers if handler_types(h) & {'KeyError', 'LookupError', 'Exception'}]
+                chk.ob('C08.f', bool(hs), c, 'a missing cache item (KeyError) is tolerated when %s keeps the parso cache node' % q)
+                tgt = norm(st.targets[0])
+                ident = [x for x in own_nodes(f) if isinstance(x, ast.Compare) and len(x.ops) == 1 and isinstance(x.ops[0], (ast.Is, ast.IsNot))
+                         and norm(x.left) == tgt + '.node' and 'tree_node' in norm(x.comparators[0])]
+                chk.ob('C08.f', bool(ident), c, 'the kept cache node is checked to hold the analysed tree (`%s.node is <module>.tree_node`)' % tgt)
+    chk.floor('C08.f', n, 1, '(cache nodes kept for memoisation)')
+
+
 def describe(chk):
     chk.undecided('equality with a fresh process over all edit histories (depends on parso\'s diff parser and on run-time values); that parso '
                   'replaces its cache entry on every re-parse')
@@ -308,4 +336,4 @@ def describe(chk):
     chk.assume('a container bound at module level and only mutated by module top-level statements is a constant table, not a store')
 
 
-RULES = [('C08.a', rule_a), ('C08.b', rule_b), ('C08.c', rule_c), ('C08.d', rule_d), ('C08.e', rule_e)]
+RULES = [('C08.a', rule_a), ('C08.b', rule_b), ('C08.c', rule_c), ('C08.d', rule_d), ('C08.e', rule_e), ('C08.f', rule_f)]
